@@ -165,7 +165,15 @@ def check(ctx):
                         if ds_ and all(d.value is not None and norm(d.value).startswith(strp + "[") for d in ds_):
                             t = norm(ds_[0].value)
                     pos.append(t)
-                kws = {k.arg: norm(k.value) for k in c.keywords}
+                kws = {k.arg: norm(k.value) for k in c.keywords if k.arg is not None}
+                # **options with options = dict(maxsplit=maxsplit, flags=flags) / {"count": count, ...}: the entries of the dict
+                for k in [k for k in c.keywords if k.arg is None and isinstance(k.value, ast.Name)]:
+                    for d_ in defs_reaching(f, k.value.id, c):
+                        v_ = d_.value
+                        if isinstance(v_, ast.Call) and isinstance(v_.func, ast.Name) and v_.func.id == "dict" and not v_.args:
+                            kws.update({kk.arg: norm(kk.value) for kk in v_.keywords if kk.arg is not None})
+                        elif isinstance(v_, ast.Dict) and all(isinstance(kk, ast.Constant) for kk in v_.keys):
+                            kws.update({kk.value: norm(vv) for kk, vv in zip(v_.keys, v_.values)})
                 return pos, kws
             (p1, k1) = shape(re_calls[0])
             for other in re_calls[1:]:
